@@ -147,3 +147,12 @@ class Ctx:
 def chunks(seq, n):
     for i in range(0, len(seq), n):
         yield seq[i:i + n]
+
+
+def detach_iterator(it):
+    """a client-side stream iterator is told to forget its proxy, so that its finaliser (which may run in any thread) sends nothing;
+    an implementation that does not let the attribute be set is left alone"""
+    try:
+        it.proxy = None
+    except AttributeError:
+        pass
